@@ -194,10 +194,18 @@ class Walker:
                     if isinstance(t, ast.Assign):
                         continue
                     self.ov_block([t], name)
-                for t in s.orelse:
+                todo = list(s.orelse)
+                while todo:
+                    t = todo.pop(0)
                     if isinstance(t, ast.Assign) and any(
                             isinstance(x, ast.Attribute) and x.attr == "__ptera_stack__" for x in t.targets):
                         self.emit("overlay.py", t, "createStackIfAbsent")
+                    elif isinstance(t, ast.If) and isinstance(t.test, ast.Call) and isinstance(t.test.func, ast.Name) \
+                            and t.test.func.id == "is_tooled" and all(isinstance(u, ast.Return) for u in t.body):
+                        # `elif is_tooled(fn): return fn` — a function tooled once and for all keeps its
+                        # instrumentation. The functions of the thread model are tooled by probes only: without a
+                        # stack they are not tooled, the test fails (it is made under the lock) and the stack is created
+                        todo = list(t.orelse) + todo
                     else:
                         raise ExtractError("_tooler: unrecognised else-branch at line %d" % t.lineno)
             elif isinstance(s, ast.Expr) and isinstance(s.value, ast.Call) and is_attr(s.value.func, "st", name):
